@@ -181,10 +181,11 @@ IntResults(ty, toks) ==
     [] OTHER              -> {Fail}         \* garbage, out of range, not UTF-8: the handler must not run
 
 (* ----- strings: "each path parameter is the percent-decoded segment at its position" *)
-\* a segment whose decoding is not UTF-8 has no String value: refused, or (loosest reading) rendered lossily
+\* a segment whose decoding is not UTF-8 has no String value -- "exactly the percent-decoded segment" cannot be produced: the handler must
+\* not run (a lossy rendering with U+FFFD is a string the request does not denote)
 StrResults(ty, toks) ==
   LET v == Ok(Val("str", SegChars(toks))) IN
-  IF SegBad(toks) THEN {Fail, v}                       \* v has "R" for every bad escape
+  IF SegBad(toks) THEN {Fail}
   ELSE IF SegInvalid(toks) THEN {Fail, v}                  \* v has the invalid escape verbatim
   ELSE IF ty = "str" /\ SegEsc(toks) THEN {v, Fail}    \* a borrowed &str cannot hold a decoded segment: may be refused
   ELSE {v}
